@@ -106,7 +106,7 @@ impl<'a> R<'a> {
                 self.expr(a);
                 self.expr(b);
             }
-            EKind::Neg(a) | EKind::Not(a) | EKind::Field(a, _) | EKind::TupleIdx(a, _) | EKind::MaybeJust(a) => self.expr(a),
+            EKind::Neg(a) | EKind::Not(a) | EKind::Field(a, _) | EKind::TupleIdx(a, _) | EKind::MaybeJust(a) | EKind::Mark(a) => self.expr(a),
             EKind::If(bs, d) => {
                 for (c, b) in bs {
                     self.expr(c);
